@@ -1115,7 +1115,7 @@ func checkCredentialIssueTime(c *km.Ctx, s *km.Sem, rule string) {
 	const claimsT = KMD + ".authInfoJWT"
 	if fn := c.MustFunc(rule, "cmd/keymasterd", "(*RuntimeState).getAuthInfoFromJWT"); fn != nil {
 		nSt, good := 0, true
-		km.Instrs(fn, func(in ssa.Instruction) {
+		instrsWithNewHelpers(c, fn, 2, func(in ssa.Instruction) {
 			if st, ok := in.(*ssa.Store); ok {
 				if fa, ok := st.Addr.(*ssa.FieldAddr); ok && fieldNameOf(fa) == "IssuedAt" && km.NamedTypeOf(fa.X.Type()) == KMD+".authInfo" {
 					nSt++
